@@ -2,7 +2,7 @@
 src/parse/tz_file.rs `parse_footer` translated = the model's `parseFooter` (the `str` methods it uses are modelled
 in SrcPreludeStr.lean; the TZ-string parser it calls is the translated one).
 -/
-import TzVerif.Generated.Src
+import TzVerif.SrcBase
 import TzVerif.Model.TzFile
 import TzVerif.Proofs.SrcEqTzString
 
